@@ -46,7 +46,11 @@ RULE_ADDED = (
               'late family, sub-classified so that a brother whose hash cannot be computed stay'
               's a violation). '
               ' '
-              'Round 17: key ids with elements of 4300, 4301, 5000, 100000 decimal digits. ')
+              'Round 17: key ids with elements of 4300, 4301, 5000, 100000 decimal digits. '
+              ' '
+              'Round 19: a request that ends without any verdict (an exception that ends the ma'
+              'nager, a reply without an integer errorcode) is reported here too, not only by C'
+              '03. ')
 RULE = RULE + " " + RULE_ADDED.strip()
 ASSUMPTIONS = [
     "the reference classifier (pv/oracle/docs_protocol.py) is a reading of docs/protocol.md and "
@@ -596,7 +600,14 @@ def check_one(acc, st, v1, name, label, req):
     except Exception:
         pass
     if exc is not None or not isinstance(reply, dict) or type(reply.get("errorcode")) is not int:
-        acc.count("no_verdict_left_to_C03")
+        # no verdict at all (an exception that ends the manager, a reply without an integer
+        # errorcode): none of the verdicts the documents allow for any value.  (C03 judges
+        # the same from the client's side, over many more byte sequences.)
+        acc.count("requests_left_without_a_verdict")
+        acc.violation("no-verdict:%s:%s" % (
+            cmdname, type(exc).__name__ if exc is not None else "reply-without-errorcode"),
+            {"v1": v1, "label": label, "reply": repr(out)[:200], "apdus": len(apdus),
+             "exception": repr(exc)[:300], "request": json.dumps(req)[:600]}, case)
         if exc is not None:
             s.__exit__(None, None, None)
             st.pop(key)
